@@ -110,7 +110,17 @@ func (e *Env) MarginSnapshot() MarginState {
 	}
 	sort.Slice(s.Pools, func(i, j int) bool { return s.Pools[i].Asset < s.Pools[j].Asset })
 	k := e.App.MarginKeeper
-	for _, m := range k.GetAllMTPS(ctx) {
+	// the stored positions, read key by key from the store (not through the listing helpers that the genesis export and
+	// the queries use: those are what is being checked)
+	var stored []*margintypes.MTP
+	it := k.GetMTPIterator(ctx)
+	for ; it.Valid(); it.Next() {
+		var m margintypes.MTP
+		e.App.AppCodec().MustUnmarshal(it.Value(), &m)
+		stored = append(stored, &m)
+	}
+	it.Close()
+	for _, m := range stored {
 		s.MTPs = append(s.MTPs, MTP{Addr: e.idOf(m.Address), ID: int64(m.Id), CollAsset: e.denomOf(m.CollateralAsset), CustAsset: e.denomOf(m.CustodyAsset),
 			CollAmt: safeUint(m.CollateralAmount), Liab: safeUint(m.Liabilities), IPaidColl: safeUint(m.InterestPaidCollateral), IPaidCust: safeUint(m.InterestPaidCustody),
 			IUnpaid: safeUint(m.InterestUnpaidCollateral), CustAmt: safeUint(m.CustodyAmount), Lev: decInt(m.Leverage), Health: decInt(m.MtpHealth)})
